@@ -636,3 +636,83 @@ def rq_column_cases(ck):
             for dialect in ds:
                 out.append({"entry": "json_rq", "src": text, "stack_mb": 64, "family": "rqcols", "prog": p, "target": dialect})
     return out
+
+
+# ----------------------------------------------------------------------------- formatter layout protocol (Model/FmtLayout.v)
+def fmt_layout_trees(ck):
+    """random trees of  e ::= Id w | Tup [e..] | Bin e e  with their PRQL rendering and Coq term"""
+    rng = ck.rng
+
+    def gen(depth):
+        u = rng.random()
+        if depth == 0 or u < 0.3:
+            return ("Id", rng.choice([1, 2, 3, 5, 8, 12, 20, 30, 45, 60]))
+        if u < 0.65:
+            return ("Tup", [gen(depth - 1) for _ in range(rng.choice([0, 1, 2, 2, 3, 4]))])
+        return ("Bin", gen(depth - 1), gen(depth - 1))
+
+    def src(t, right=False):
+        if t[0] == "Id":
+            return "a" * t[1]
+        if t[0] == "Tup":
+            return "{" + ", ".join(src(c) for c in t[1]) + "}"
+        s = src(t[1]) + " + " + src(t[2], True)
+        return "(" + s + ")" if right else s
+
+    def coq(t):
+        if t[0] == "Id":
+            return "(Id %d)" % t[1]
+        if t[0] == "Tup":
+            r = "NNil"
+            for c in reversed(t[1]):
+                r = "(NCons %s %s)" % (coq(c), r)
+            return "(Tup %s)" % r
+        return "(Bin %s %s)" % (coq(t[1]), coq(t[2]))
+
+    def chain(n, w, shape):
+        t = ("Id", w)
+        for _ in range(n):
+            t = ("Bin", ("Id", w), t) if shape == "right" else ("Tup", [t]) if shape == "tup" else ("Tup", [("Bin", ("Id", w), t)])
+        return t
+
+    trees = [chain(n, w, sh) for sh in ("right", "tup", "mixed") for n in (1, 3, 6, 10, 16) for w in (2, 9)]
+    trees += [gen(rng.choice([1, 2, 3, 4, 5, 6])) for _ in range(ck.n(140, 1200))]
+    out = []
+    for t in trees:
+        out.append(("let v = " + src(t), coq(t), t))
+    return list({x[0]: x for x in out}.values())
+
+
+def fmt_layout_correspondence(ck):
+    """Model/FmtLayout.v format_let vs prql_to_pl + pl_to_prql (harness c12fmt): the formatted text, character by character,
+    and -- when the tree has the hook verif:fmt-calls -- the number of invocations of <pr::Expr as WriteSource>::write.
+    Without the hook the texts are still compared and the evidence says that the counts were not."""
+    cases = fmt_layout_trees(ck)
+    impl = harness("c12fmt", [{"src": c[0]} for c in cases])
+    header = ("From Coq Require Import List NArith ZArith.\nFrom PV Require Import Lib.ListX Model.FmtLayout.\nImport ListNotations.\n")
+    try:
+        model = coq_eval(header, ["format_let %s" % c[1] for c in cases])
+    except RuntimeError as ex:
+        ck.coverage["model_eval_error"] = str(ex)[-400:]
+        return
+    hook = any(a.get("calls") is not None for a in impl)
+    ck.coverage["fmt_calls_hook_present"] = hook
+    if not hook:
+        print("NOTE: property=C12 the tree has no hook `verif:fmt-calls` (hooks/fmt-calls.diff): formatted texts are compared with Model/FmtLayout.v, call counts are NOT")
+    for c, a, mv in zip(cases, impl, model):
+        ck.count("corr-fmt-layout", c[0])
+        if "ok" not in a:
+            ck.violation("prql_to_pl / pl_to_prql did not format `%s`: %s" % (c[0][:120], json.dumps(a)[:200]), {"src": c[0], "entry": "fmt", "kind": "correspondence"})
+            continue
+        mt, mc = mv
+        mtext = None if mt == "None" else "".join(chr(x) for x in mt[1])
+        ck.stat("corr-fmt-layout", "lines:%s" % min(a["ok"].count("\n"), 6))
+        if mtext != a["ok"]:
+            ck.violation("Model/FmtLayout.v format_let differs from pl_to_prql on `%s`" % c[0][:160],
+                         {"src": c[0], "entry": "fmt", "model": mtext, "impl": a["ok"], "term": c[1][:400], "kind": "correspondence"})
+            continue
+        if a.get("calls") is not None:
+            ck.stat("corr-fmt-layout", "calls-compared")
+            if int(a["calls"]) != mc:
+                ck.violation("Model/FmtLayout.v counts %d invocations of Expr::write on `%s`, the hook verif:fmt-calls reports %d" % (mc, c[0][:160], a["calls"]),
+                             {"src": c[0], "entry": "fmt", "model_calls": mc, "impl_calls": a["calls"], "kind": "correspondence"})
